@@ -259,10 +259,11 @@ def main(argv):
     if "lr1" in want:
         res["lr1"] = lr1_probe()
     if "parser_tables" in want:
+        # the generated LR(1) tables as source text (every iteration over sets inside lr1.Grammar feeds into them)
         from compiler.front_end import make_parser, generate_cached_parser
-        p = make_parser.build_expression_parser()
-        res["expression_parser_sha"] = hashlib.sha1(generate_cached_parser.as_py_source(p, "expression_parser").encode()).hexdigest() \
-            if hasattr(generate_cached_parser, "as_py_source") else None
+        for nm, build in (("expression_parser", make_parser.build_expression_parser), ("module_parser", make_parser.build_module_parser)):
+            src = generate_cached_parser.as_py_source(build(), nm)
+            res[nm + "_sha"] = hashlib.sha1(src.encode("utf-8")).hexdigest()
     shared = job.get("shared", {})
     for rep in range(job.get("repeat", 1)):
         run = []
